@@ -162,6 +162,17 @@ CLAIMED['C06'] = dict(
          'numerically with scipy.stats; heterogeneous sampler (row choice) judged structurally by C16 only',
     technique='code->spec: recorded sampler calls checked by TLC against a TLA+ algebra of laws (SampleAlgebra.tla)',
     design='6/C06')
+CLAIMED['C04'] = dict(
+    engine='ErrorModel',
+    text='TLC enumerates every error-model case (kind x number of observations x width of the output-sensitivity matrix x '
+         'sign class of every scale parameter and of the outputs) and checks the support rule, pointwise = total and the '
+         'layout of the sensitivity vector (mechanistic entries, then error parameters). Each case is concretised with '
+         'seeded values and executed on the real error model: values against the documented densities, gradients against '
+         'exact derivatives chained through the supplied output sensitivities, -inf classes against the rule.',
+    note='normalisation ("integrates to one") is established for the documented densities by quadrature in the '
+         'interpretation-table self-test and inherited by chi through pointwise equality; numeric leaves are not TLC\'s',
+    technique='TLA+ spec (ErrorModel.tla) model-checked with TLC; spec->code replay of every enumerated case',
+    design='6/C04')
 
 NOT_YET = {
 }
